@@ -91,6 +91,53 @@ def _normalise_tests(tree):
 
                 b.test = _Sub().visit(b.test)
                 del stmts[[k for k, s_ in enumerate(stmts) if s_ is a][0]]
+    # `t = <call>` immediately followed by a simple statement that reads t exactly once, every read and every
+    # assignment of t in the function being such a pair: the temporary is inlined (`_a = g(x); f(a, _a)` is
+    # `f(a, g(x))`).  Whether a call's argument is first given a name is not a property of the program.
+    _NEST = (ast.Lambda, ast.GeneratorExp, ast.ListComp, ast.SetComp, ast.DictComp)
+    for fn in [n for n in ast.walk(tree) if isinstance(n, (ast.FunctionDef, ast.AsyncFunctionDef))]:
+        for _round in range(4):
+            loads, stores = {}, {}
+            for n in ast.walk(fn):
+                if isinstance(n, ast.Name):
+                    d_ = loads if isinstance(n.ctx, ast.Load) else stores
+                    d_[n.id] = d_.get(n.id, 0) + 1
+            params = {a_.arg for a_ in ast.walk(fn) if isinstance(a_, ast.arg)}
+            pairs = {}
+            for stmts in _blocks(fn):
+                for i in range(len(stmts) - 1):
+                    a, b = stmts[i], stmts[i + 1]
+                    if (
+                        isinstance(a, ast.Assign)
+                        and len(a.targets) == 1
+                        and isinstance(a.targets[0], ast.Name)
+                        and isinstance(a.value, ast.Call)
+                        and isinstance(b, (ast.Expr, ast.Assign, ast.AugAssign, ast.Return))
+                        and b.value is not None
+                        and not any(isinstance(n, (ast.Yield, ast.YieldFrom, ast.Await)) for n in ast.walk(a.value))
+                    ):
+                        x = a.targets[0].id
+                        uses = [n for n in ast.walk(b.value) if isinstance(n, ast.Name) and n.id == x and isinstance(n.ctx, ast.Load)]
+                        nested = any(isinstance(n, _NEST) and any(isinstance(m, ast.Name) and m.id == x for m in ast.walk(n)) for n in ast.walk(b.value))
+                        restored = isinstance(b, ast.Assign) and any(isinstance(n, ast.Name) and n.id == x for t in b.targets for n in ast.walk(t))
+                        if len(uses) == 1 and not nested and not restored and x not in params:
+                            pairs.setdefault(x, []).append((stmts, a, b))
+            done = False
+            for x, ps in pairs.items():
+                if loads.get(x, 0) != len(ps) or stores.get(x, 0) != len(ps):
+                    continue
+                if not all(any(a is s_ for s_ in stmts) for stmts, a, b in ps):
+                    continue
+                for stmts, a, b in ps:
+                    class _Sub2(ast.NodeTransformer):
+                        def visit_Name(self, n, _x=x, _v=a.value):
+                            return _v if n.id == _x and isinstance(n.ctx, ast.Load) else n
+
+                    b.value = _Sub2().visit(b.value)
+                    del stmts[[k for k, s_ in enumerate(stmts) if s_ is a][0]]
+                done = True
+            if not done:
+                break
     # `if a:` whose only statement is an else-less `if b: S` (and no else itself) is `if a and b: S`
     changed = True
     while changed:
